@@ -45,7 +45,18 @@ func build(sp Spec) (program, error) {
 	if sp.Fail != failNone && (sp.Level < 0 || sp.Level > len(sp.Ws) || sp.Pos < 0 || sp.Pos >= positions(sp, sp.Level)) {
 		return program{}, fmt.Errorf("failure position out of range")
 	}
-	pr := program{spec: sp, stmts: buildSpine(sp)}
+	pr := program{spec: sp}
+	switch sp.Fam {
+	case "":
+		pr.stmts = buildSpine(sp)
+	case "rebind":
+		if sp.A < 0 || sp.A >= len(rebindForms) || sp.B < 0 || sp.B >= len(rebindExits) || sp.C < 0 || sp.C > 1 || sp.Fail != failNone || len(sp.Defers) > 0 {
+			return program{}, fmt.Errorf("bad rebind coordinates")
+		}
+		pr.stmts = buildSpineWith(Spec{Ws: sp.Ws}, rebindPayload(sp))
+	default:
+		return program{}, fmt.Errorf("unknown family %q", sp.Fam)
+	}
 	pr.src = ir.Source(pr.stmts)
 	return pr, nil
 }
@@ -97,7 +108,7 @@ func check(pr program) verdict {
 		used |= exp.Used
 		if v.exp == nil {
 			v.exp = exp
-			v.reached = reached || pr.spec.Fail == failNone
+			v.reached = reached || !hasFailurePoint(pr.spec)
 		}
 		switch exp.Status {
 		case ir.Undetermined:
@@ -121,7 +132,7 @@ func check(pr program) verdict {
 		kind, detail := irrun.Diff(exp, obs)
 		if kind == "" {
 			v.exp = exp
-			v.reached = reached || pr.spec.Fail == failNone
+			v.reached = reached || !hasFailurePoint(pr.spec)
 			v.resolution = r.String()
 			return true
 		}
@@ -172,8 +183,15 @@ func check(pr program) verdict {
 		where = whereName(sp, sp.Level)
 	}
 	v.class = firstKind + "/" + failNames[sp.Fail] + "@" + where + "/defers:" + deferNamesOf(sp)
+	if sp.Fam == "rebind" {
+		v.class = "defer-rebind/" + firstKind + "/" + rebindForms[sp.A] + "/exit:" + rebindExits[sp.B] + "/in:" + pathName(sp)
+	}
 	v.detail = fmt.Sprintf("(path %s; %d resolution(s) of the under-determined points tried, none matches) %s", pathName(sp), len(tried), firstDetail) + confirmPlain(pr.src, obs)
 	return v
+}
+
+func hasFailurePoint(sp Spec) bool {
+	return sp.Fail != failNone || sp.Fam == "rebind" && sp.B > 0
 }
 
 func confirmPlain(src string, obs *irrun.Obs) string {
@@ -212,27 +230,48 @@ func tuples(n int) [][]int {
 }
 
 // deferSeqs lists every sequence of defer kinds of length 0..max.
-func deferSeqs(max int) [][]int {
-	out := [][]int{nil}
+//
+// panicking == false: the four script-level kinds only (incl. the empty
+// sequence); panicking == true: all six kinds, only the sequences that contain
+// at least one deferred Go callee that panics (host-panics, nil-func) - at
+// every position among the other kinds.
+func deferSeqs(max int, panicking bool) [][]int {
+	kinds := baseDefer
+	if panicking {
+		kinds = numDefer
+	}
+	all := [][]int{nil}
 	level := [][]int{nil}
 	for l := 1; l <= max; l++ {
 		var next [][]int
 		for _, s := range level {
-			for k := 0; k < numDefer; k++ {
+			for k := 0; k < kinds; k++ {
 				next = append(next, append(append([]int(nil), s...), k))
 			}
 		}
-		out = append(out, next...)
+		all = append(all, next...)
 		level = next
+	}
+	if !panicking {
+		return all
+	}
+	var out [][]int
+	for _, s := range all {
+		for _, k := range s {
+			if k >= baseDefer {
+				out = append(out, s)
+				break
+			}
+		}
 	}
 	return out
 }
 
 // specsFor lists every program over the wrapper tuple ws with at most maxDefers defer statements.
-func specsFor(ws []int, maxDefers int) []Spec {
+func specsFor(ws []int, maxDefers int, panicking bool) []Spec {
 	var specs []Spec
 	depth := len(ws)
-	for _, ds := range deferSeqs(maxDefers) {
+	for _, ds := range deferSeqs(maxDefers, panicking) {
 		for dl := 0; dl <= depth; dl++ {
 			if len(ds) == 0 && dl > 0 {
 				break
@@ -256,6 +295,20 @@ func specsFor(ws []int, maxDefers int) []Spec {
 type job struct {
 	ws        []int
 	maxDefers int
+	panicking bool // the defer sequences with a Go callee that panics
+	rebind    bool // the rebind family under this wrapper tuple
+}
+
+func rebindSpecs(ws []int) []Spec {
+	var specs []Spec
+	for a := range rebindForms {
+		for b := range rebindExits {
+			for c := 0; c <= 1; c++ {
+				specs = append(specs, Spec{Fam: "rebind", Ws: ws, A: a, B: b, C: c})
+			}
+		}
+	}
+	return specs
 }
 
 func jobs(c *common.Ctx) []job {
@@ -263,18 +316,30 @@ func jobs(c *common.Ctx) []job {
 	if !c.Thorough() {
 		for d := 0; d <= 2; d++ {
 			for _, ws := range tuples(d) {
-				js = append(js, job{ws, 2})
+				js = append(js, job{ws: ws, maxDefers: 2})
+			}
+		}
+		for d := 0; d <= 1; d++ {
+			for _, ws := range tuples(d) {
+				js = append(js, job{ws: ws, maxDefers: 2, panicking: true})
+				js = append(js, job{ws: ws, rebind: true})
 			}
 		}
 		return js
 	}
 	for d := 0; d <= 2; d++ {
 		for _, ws := range tuples(d) {
-			js = append(js, job{ws, 3})
+			js = append(js, job{ws: ws, maxDefers: 3})
+			js = append(js, job{ws: ws, rebind: true})
+			if d <= 1 {
+				js = append(js, job{ws: ws, maxDefers: 3, panicking: true})
+			} else {
+				js = append(js, job{ws: ws, maxDefers: 2, panicking: true})
+			}
 		}
 	}
 	for _, ws := range tuples(3) {
-		js = append(js, job{ws, 1})
+		js = append(js, job{ws: ws, maxDefers: 1})
 	}
 	return js
 }
@@ -288,7 +353,13 @@ func run(c *common.Ctx) *common.Result {
 			capped = true
 			return
 		}
-		for _, sp := range specsFor(js[i].ws, js[i].maxDefers) {
+		var specs []Spec
+		if js[i].rebind {
+			specs = rebindSpecs(js[i].ws)
+		} else {
+			specs = specsFor(js[i].ws, js[i].maxDefers, js[i].panicking)
+		}
+		for _, sp := range specs {
 			pr, err := build(sp)
 			if err != nil {
 				res.Add("machinery_bad_spec", 1)
@@ -300,6 +371,15 @@ func run(c *common.Ctx) *common.Result {
 			}
 			v := check(pr)
 			res.Add("evaluations", 1)
+			if sp.Fam != "" {
+				res.Add("evaluations_family_"+sp.Fam, 1)
+			}
+			for _, k := range sp.Defers {
+				if k >= baseDefer {
+					res.Add("evaluations_with_panicking_go_callee_deferred", 1)
+					break
+				}
+			}
 			res.Add(fmt.Sprintf("evaluations_depth%d", len(sp.Ws)), 1)
 			res.Add(fmt.Sprintf("evaluations_defers%d", len(sp.Defers)), 1)
 			res.Max("depth", int64(len(sp.Ws)))
@@ -445,10 +525,10 @@ func init() {
 func Corpus(c *common.Ctx, maxDepth int, emit func(src string)) {
 	seen := map[string]bool{}
 	for _, j := range jobs(c) {
-		if len(j.ws) > maxDepth {
-			continue
+		if len(j.ws) > maxDepth || j.rebind || j.panicking {
+			continue // the corpus stays the set (and the numbering) C14 was built on
 		}
-		for _, sp := range specsFor(j.ws, j.maxDefers) {
+		for _, sp := range specsFor(j.ws, j.maxDefers, false) {
 			pr, err := build(sp)
 			if err != nil || seen[pr.src] {
 				continue
